@@ -251,6 +251,8 @@ def gen_depth2(rng):
     pieces = rng.sample(["names", "win", "tmp", "direct", "winstmt"], rng.choice([1, 2, 2, 3]))
     if not ({"names", "win", "tmp", "winstmt"} & set(pieces)):
         pieces.append("names")
+    if "direct" not in pieces and rng.random() < 0.4:
+        pieces.insert(rng.randrange(len(pieces) + 1), "direct")
     for pc in pieces:
         if pc == "names":
             L.extend(call_leaf("    ", "a", "b", pre))
@@ -286,6 +288,8 @@ def gen_depth2(rng):
     pieces = rng.sample(["mid", "midrow", "leaf", "tmp", "direct", "leafrow"], rng.choice([1, 2, 2, 3]))
     if not ({"mid", "midrow", "tmp"} & set(pieces)):
         pieces.append(rng.choice(["mid", "midrow"]))
+    if "direct" not in pieces and rng.random() < 0.4:
+        pieces.insert(rng.randrange(len(pieces) + 1), "direct")
     for pc in pieces:
         if pc == "mid":
             w(f"    mid({', '.join(sza + ['x', 'y'])})")
@@ -627,7 +631,30 @@ class C15Monitor(Monitor):
         self.p_variant = p_variant
         self.gcc_cache = {}
         self.nwork = 0
+        self.local = {}  # this shard's own counts (quota for the generation cap)
         self.reset()
+
+    def count(self, key):
+        self.local[key] = self.local.get(key, 0) + 1
+        self.ctx.stat(key)
+
+    def on_end(self, sess):
+        """the soft cap limits *generation*; on a machine so loaded that a shard has not
+        reached its share of the evidence thresholds by then, generation goes on (bounded
+        by params.extend_s) instead of ending in an inconclusive run"""
+        ctx = self.ctx
+        ext = float(ctx.params.get("extend_s", 0))
+        if self.replay or not ext or not ctx.out_of_time():
+            return
+        import time
+
+        if time.time() > ctx.t0 + float(ctx.params.get("soft_s", 0)) + ext:
+            return
+        need = ctx.params.get("shard_quota") or {}
+        short = [k for k, n in need.items() if self.local.get(k, 0) < n]
+        if short:
+            ctx.stat("generation.extended_programs")
+            ctx.soft_deadline = time.time() + 1.0
 
     def reset(self):
         self.seen_fp = set()
@@ -672,7 +699,7 @@ class C15Monitor(Monitor):
         if kinds:
             ctx.stat("judge.inconsistent")
             for k in kinds:
-                ctx.stat(f"judge.inconsistent.{k}")
+                self.count(f"judge.inconsistent.{k}")
         else:
             ctx.stat("judge.consistent")
         new_kinds = [k for k in kinds if k not in self.prev_kinds]
@@ -710,6 +737,8 @@ class C15Monitor(Monitor):
             ctx.violation(sig, case)
             ctx.stat(f"viol.annot-judge.{k}")
         # (a) gcc
+        if not ctx.params.get("gcc", True):  # debugging aid: judge only
+            return
         h = shash(c_text + "\0" + h_text)
         if h in self.gcc_cache:
             ok, err = self.gcc_cache[h]
@@ -725,7 +754,7 @@ class C15Monitor(Monitor):
                 ctx.inconclusive("gcc_error:" + type(e).__name__)
                 return
             self.gcc_cache[h] = (ok, err)
-            ctx.stat("gcc.checks")
+            self.count("gcc.checks")
         if ok:
             ctx.stat("gcc.accepted")
             self.sample(sess, proc, via, kinds, findings, "accepted", "accepted")
@@ -823,10 +852,14 @@ class C15Monitor(Monitor):
 # ----------------------------------------------------------------------------
 def plan(tier, seed):
     quick = tier == "quick"
+    nshards = 16
+    quota = {"gcc.checks": -(-MIN_GCC * 5 // (4 * nshards))}
+    for k in annot.KINDS:
+        quota[f"judge.inconsistent.{k}"] = -(-MIN_KIND * 3 // (2 * nshards))
     return {
-        "nshards": 16,
-        "params": {"soft_s": 95 if quick else 780, "script_len": 4},
-        "hard_timeout_s": 300 if quick else 1500,
+        "nshards": nshards,
+        "params": {"soft_s": 95 if quick else 780, "extend_s": 110 if quick else 60, "shard_quota": quota, "script_len": 4},
+        "hard_timeout_s": 420 if quick else 1500,
     }
 
 
